@@ -67,6 +67,7 @@ class FnSpec:
         self.rules = []        # (rule, n, fields)
         self.subst = []        # textual substitutions (logged rewrites)
         self.drop_body = False
+        self.rename = None
     @property
     def key(self):
         h = "" if self.header in ("-", None) else self.header + "::"
@@ -155,6 +156,8 @@ def apply_directive(fs, d, tmpl_name):
         fs.ret = rest.strip()
     elif kw == "attr":
         fs.attrs.append(rest.strip())
+    elif kw == "rename":
+        fs.rename = rest.strip()
     elif kw in ("requires", "ensures", "decreases"):
         e, t = split_tag(rest)
         getattr(fs, kw).append((e, t))
@@ -646,6 +649,10 @@ def instantiate_fn(fs, item, em):
         if fs.closures or fs.loops or fs.anchors or fs.rules:
             raise GenError("%s: body directives on a bodiless fn" % fnkey)
 
+    if fs.rename:
+        nm = toks[sh.fn_k + 1]
+        edits.append((nm.start, nm.end, fs.rename))
+        log.append("R-rename: fn `%s` of `%s` emitted as free function `%s` (Verus rejects recursion through a trait impl)" % (fs.name, fs.header, fs.rename))
     out = apply_edits(text, edits)
     if contract_marker:
         out = out.replace(contract_marker, "\n" + "\n".join(contract_lines) + "\n    ")
